@@ -60,17 +60,19 @@ VARIABLES rcfg,     \* the case: [limit, mode, proto, rowlen, n] ; n = rows prod
 
 rvars == <<rcfg, rd, chunk, cbytes, more, bst, sent, outcome>>
 
-Modes  == {"unsharded", "shard1", "shard2", "shard4"}   \* shard4: two slices with two sub-table statements each
+Modes  == {"unsharded", "shard1", "shard2", "shard4", "multi2"}
+    \* shard4: two slices with two sub-table statements each
+    \* multi2: an unsharded statement answered with two result sets (SERVER_MORE_RESULTS_EXISTS) on one connection
 Protos == {"text", "binary"}
 
 Plus(a, b) == a + b
 CountsOf(l) == IF l = 0 THEN UnlimCounts ELSE {l - 1, l, l + 1}
-CountVectors(l, m) == CASE m = "shard2" -> {<<a, b>> : a \in CountsOf(l), b \in CountsOf(l)}
+CountVectors(l, m) == CASE m \in {"shard2", "multi2"} -> {<<a, b>> : a \in CountsOf(l), b \in CountsOf(l)}
                         [] m = "shard4" -> {<<a, b, c, d>> : a \in CountsOf(l), b \in CountsOf(l), c \in CountsOf(l), d \in CountsOf(l)}
                         [] OTHER -> {<<a>> : a \in CountsOf(l)}
 Fits(c) == /\ \A i \in 1..Len(c.n) : c.n[i] * c.rowlen <= MaxBytes
            /\ FoldLeft(Plus, 0, c.n) * c.rowlen <= MaxTotalBytes
-           /\ c.mode = "shard4" => c.limit \in 1..Shard4MaxLimit /\ c.rowlen \in Shard4RowLens
+           /\ c.mode \in {"shard4", "multi2"} => c.limit \in 1..Shard4MaxLimit /\ c.rowlen \in Shard4RowLens
 
 ResultCases ==
     {c \in UNION { { [limit |-> l, mode |-> m, proto |-> p, rowlen |-> s, n |-> v] : v \in CountVectors(l, m) }
@@ -80,9 +82,10 @@ BE == 1..4
 NB == Len(rcfg.n)
 N(b) == IF b <= NB THEN rcfg.n[b] ELSE 0
 Used == 1..NB
-Sharded == rcfg.mode # "unsharded"
-(* the slice (backend connection) a per-shard result comes from *)
-SliceOf(b) == IF rcfg.mode = "shard4" THEN (b + 1) \div 2 ELSE b
+Streamed == rcfg.mode \in {"unsharded", "multi2"}     \* written to the client chunk by chunk, result set by result set
+Sharded == ~Streamed
+(* the slice (backend connection) a per-shard result / result set comes from *)
+SliceOf(b) == CASE rcfg.mode = "shard4" -> (b + 1) \div 2 [] rcfg.mode = "multi2" -> 1 [] OTHER -> b
 
 (* what the property demands for a case c, independent of any design variant *)
 TotalOf(c) == FoldLeft(Plus, 0, c.n)
@@ -109,7 +112,7 @@ Exceeds(c) == IF LimitInclusive THEN c >= rcfg.limit ELSE c > rcfg.limit
 (* executeMultipleSQLInSlice: the statements of one slice run in order on one connection; a statement *)
 (* starts when the previous one has been read to its end (a failed one ends the slice's work)          *)
 Finished(b) == bst[b] = "chunkdone" /\ (ShardIgnoresMore \/ ~more[b])
-Turn(b) == \A p \in Used : (p < b /\ SliceOf(p) = SliceOf(b)) => Finished(p)
+Turn(b) == \A p \in Used : (p < b /\ SliceOf(p) = SliceOf(b)) => IF Streamed THEN bst[p] = "finished" ELSE Finished(p)
 
 (* DirectConnection.readResultRows: one row packet *)
 ReadRow(b) ==
@@ -143,16 +146,20 @@ ReadEOF(b) ==
 
 (* unsharded: Session.writeResponse / ClientConn.writeOKResultStream: write the chunk, then     *)
 (* FetchMoreRows while the flag is up, the terminating EOF only after the last chunk            *)
+Cur == CHOOSE b \in Used : bst[b] # "finished" /\ \A p \in Used : p < b => bst[p] = "finished"
 WriteChunk ==
-    /\ ~Sharded /\ bst[1] = "chunkdone" /\ outcome = "pending"
-    /\ sent' = sent + chunk[1]
-    /\ chunk' = [chunk EXCEPT ![1] = 0]
-    /\ cbytes' = [cbytes EXCEPT ![1] = 0]
-    /\ IF more[1]
-       THEN /\ bst' = [bst EXCEPT ![1] = "reading"]
-            /\ UNCHANGED outcome
-       ELSE /\ bst' = [bst EXCEPT ![1] = "finished"]
-            /\ outcome' = "complete"
+    /\ Streamed /\ outcome = "pending"
+    /\ \E b \in Used : bst[b] # "finished"
+    /\ LET b == Cur IN
+       /\ bst[b] = "chunkdone"
+       /\ sent' = sent + chunk[b]
+       /\ chunk' = [chunk EXCEPT ![b] = 0]
+       /\ cbytes' = [cbytes EXCEPT ![b] = 0]
+       /\ IF more[b]
+          THEN /\ bst' = [bst EXCEPT ![b] = "reading"]
+               /\ UNCHANGED outcome
+          ELSE /\ bst' = [bst EXCEPT ![b] = "finished"]      \* the result set's terminating EOF; ReadMoreResult follows
+               /\ outcome' = IF b = NB THEN "complete" ELSE "pending"
     /\ UNCHANGED <<rcfg, rd, more>>
 
 SliceDone(s) == \/ \E b \in Used : SliceOf(b) = s /\ bst[b] = "limiterr"
@@ -219,6 +226,8 @@ Layout(kind) ==
       [] kind = "query"        -> << F("cmd", "fix", 1, 0), F("sql", "eof", 17, 1) >>
       [] kind = "initdb"       -> << F("cmd", "fix", 1, 0), F("db", "eof", 5, 1) >>
       [] kind = "fieldlist"    -> << F("cmd", "fix", 1, 0), F("table", "nul", 8, 0), F("wildcard", "eof", 1, 1) >>
+      [] kind = "fieldlist_nodb" ->           \* the same packet on a session whose handshake named a database unknown to the namespace
+                                  << F("cmd", "fix", 1, 0), F("table", "nul", 8, 0), F("wildcard", "eof", 1, 1) >>
       [] kind = "prepare"      -> << F("cmd", "fix", 1, 0), F("sql", "eof", 32, 1) >>
       [] kind = "execute"      -> << F("cmd", "fix", 1, 0), F("stmt_id", "fix", 4, 0), F("flags", "fix", 1, 0),
                                      F("iterations", "fix", 4, 0), F("null_bitmap", "fix", 1, 0),
@@ -243,7 +252,7 @@ Layout(kind) ==
       [] kind = "setoption"    -> << F("cmd", "fix", 1, 0), F("option", "fix", 2, 0) >>
       [] kind = "unknown"      -> << F("cmd", "fix", 1, 0), F("payload", "fix", 3, 0) >>
 
-AllKinds == {"hs_plain", "hs_db_plugin", "query", "initdb", "fieldlist", "prepare", "execute", "execute_rebound", "execute0",
+AllKinds == {"hs_plain", "hs_db_plugin", "query", "initdb", "fieldlist", "fieldlist_nodb", "prepare", "execute", "execute_rebound", "execute0",
              "longdata", "stmtclose", "stmtreset", "ping", "setoption", "unknown"}
 IsHandshake(kind) == kind \in {"hs_plain", "hs_db_plugin"}
 (* commands a server answers when they are well formed *)
@@ -287,6 +296,8 @@ TruncOps(lay) == {[op |-> "trunc", field |-> 0, variant |-> "", at |-> p] : p \i
 FrameOps(kind) ==
     {[op |-> "seq", field |-> 0, variant |-> v, at |-> 0] : v \in {"plus1", "minus1", "far"}}
     \cup {[op |-> "hdrlen", field |-> 0, variant |-> v, at |-> 0] : v \in {"minus1", "plus1", "plus255", "max"}}
+    \* the packet is sent twenty times on the session (more often than a backend pool has connections)
+    \cup (IF IsHandshake(kind) THEN {} ELSE {[op |-> "repeat", field |-> 0, variant |-> "x20", at |-> 0]})
 
 Family(o) == CASE o.op \in {"oversize", "stmtid", "paramid"} -> "field"
                [] o.op = "trunc" -> "trunc"
@@ -324,6 +335,7 @@ OpClass(kind, ops, o) ==
       [] o.op = "stmtid" -> IF Present(kind, ops, o) THEN RejectClass(kind) ELSE "any"
       [] o.op = "paramid" -> IF Present(kind, ops, o) THEN RejectClass(kind) ELSE "any"
       [] o.op = "seq" -> IF PayloadLen(kind, ops) = 0 THEN "any" ELSE "reject"   \* an empty frame carries no sequence check
+      [] o.op = "repeat" -> "any"                                       \* repetition adds no grammatical defect
       [] o.op = "hdrlen" -> IF o.variant = "minus1" THEN "any" ELSE "reject"  \* the packet never completes
 RECURSIVE ClassOf(_, _, _)
 ClassOf(kind, ops, j) == IF j = 0 THEN "any" ELSE Worst(OpClass(kind, ops, ops[j]), ClassOf(kind, ops, j - 1))
